@@ -18,6 +18,13 @@
 (*                                                                          *)
 (* Transaction ids are symbols: the spec uses them only under equality, the *)
 (* replay adapter maps them injectively to boundary 32-bit values.          *)
+(*                                                                          *)
+(* Round 4: `BadLen` = a message of any of these types whose length field   *)
+(* is wrong for the type; and PIPELINING - several controller messages may  *)
+(* sit in the switch's receive buffer before the switch reads it (`more`,   *)
+(* `nheld`, `held`, `exp.see`): the answers must then appear, one per       *)
+(* message, in the order the messages were written, each echoing (xid,      *)
+(* quoted bytes) the message it answers and not a neighbour in the buffer.  *)
 EXTENDS Naturals, Sequences, FiniteSets, TLC, Json
 
 CONSTANTS NP,          \* physical ports 1..NP  (NP >= 2)
@@ -30,7 +37,13 @@ CONSTANTS NP,          \* physical ports 1..NP  (NP >= 2)
           Skip,        \* action tags removed from Next (deep simulation around open findings)
           ResOut,      \* the reserved port (OFPP_CONTROLLER, FLOOD, ...) flow f3 outputs to
           ResOther,    \* another reserved port, which no flow outputs to
-          Thin         \* TRUE: one or two representatives per argument class (all paths, depth 3)
+          Thin,        \* TRUE: one or two representatives per argument class (all paths, depth 3)
+          Pipe,        \* pipelining of controller messages in ONE receive buffer of the switch:
+                       \* "never" (each message is read on its own), "always" (path export: the
+                       \* D messages of a path arrive in one buffer), "any" (every segmentation
+                       \* into bursts of at most MaxBurst messages)
+          MaxBurst,    \* longest burst (Pipe = "any")
+          LenSet       \* "all": every malformed-length kind; "class": one per class and message family
 
 Ports   == 1..NP
 Absent  == 9           \* a port number below OFPP_MAX that the switch does not have
@@ -59,20 +72,30 @@ VARIABLES ml, fl,        \* miss_send_len, config flags
           pool,          \* [1..NB -> 0..NP+1]: ingress port of the buffered frame, 0 = free,
                          \* NP+1 = limbo (see Limbo)
           pendq,         \* xids of requests received and not yet answered, oldest first
+          nheld, held,   \* pipelining: number of messages the controller has written that the
+                         \* switch has not read yet (they share one receive buffer with the next
+                         \* message), and the alternative output streams owed to them
           last, hist     \* observation of the last action / all of them (export)
 
 wire  == <<ml, fl, fs, fpk, look, mat, prx, ptx, down>>   \* what replies report
 state == <<wire, pool>>
-vars  == <<state, pendq, last, hist>>
-view  == <<state, pendq>>                 \* exhaustive runs: observations hidden (the
+vars  == <<state, pendq, nheld, held, last, hist>>
+view  == <<state, pendq, nheld>>          \* exhaustive runs: observations hidden (the
                                           \* property is stated on transitions, which TLC
                                           \* evaluates for every generated transition)
 viewE == <<state>>                        \* edge-cover export: one node per abstract state
+\* pipelining model: states also told apart by the KINDS of answers owed (the
+\* order in which owed answers and the next answer are put together must not be
+\* hidden behind a representative that owes nothing)
+viewP == <<state, pendq, nheld, [i \in DOMAIN held[1] |-> held[1][i].t]>>
 
 ----------------------------------------------------------------------------
 (* Messages written by the switch.                                          *)
 
-Err(x, et, c) == [t |-> "ERROR", xid |-> x, et |-> et, code |-> c, data |-> "ok"]
+\* `data` of an error: the OpenFlow type of the message it quotes (filled in by Log:
+\* the error must quote the very request it answers - at least its first 64 bytes -
+\* not a neighbour in the receive buffer)
+Err(x, et, c) == [t |-> "ERROR", xid |-> x, et |-> et, code |-> c, data |-> "?"]
 \* one alternative output sequence per acceptable error code
 ErrAlts(x, et, codes) == [i \in 1..Len(codes) |-> <<Err(x, et, codes[i])>>]
 None == << <<>> >>                         \* the only acceptable output: nothing
@@ -99,8 +122,8 @@ Digest(m, f, s, pk, d, rx, tx) ==
   [ml |-> m, fl |-> f, flows |-> FlowSeq(s, pk),
    ports |-> [p \in Ports |-> [no |-> p, down |-> d[p], rx |-> rx[p], tx |-> tx[p]]]]
 
-NoObs == [a |-> "Init", tag |-> "Init", args |-> [xid |-> "-"],
-          exp |-> [outs |-> None, st |-> 0]]
+NoObs == [a |-> "Init", tag |-> "Init", args |-> [xid |-> "-", more |-> FALSE],
+          exp |-> [outs |-> None, see |-> None, st |-> 0]]
 
 Init == /\ ml = 128 /\ fl = 0
         /\ fs = {} /\ fpk = [f \in Flows |-> 0]
@@ -109,6 +132,7 @@ Init == /\ ml = 128 /\ fl = 0
         /\ down = [p \in Ports |-> FALSE]
         /\ pool = [s \in 1..NB |-> 0]
         /\ pendq = <<>>
+        /\ nheld = 0 /\ held = None
         /\ last = NoObs /\ hist = <<>>
 
 \* xids of the replies / errors in an output sequence (asynchronous messages
@@ -127,14 +151,81 @@ Settle(q, ans) == IF ans = <<>> THEN q
 
 Requests == {"EchoReq", "FeaturesReq", "GetConfigReq", "BarrierReq", "StatsReq", "QueueCfgReq"}
 
+----------------------------------------------------------------------------
+(* Malformed lengths: a message of a controller-to-switch type whose length *)
+(* field (>= 8, so the framing stays usable) is wrong for that type.        *)
+(* cls: "long" (a fixed-size message with trailing bytes), "short" (shorter *)
+(* than the fixed part of its type), "body" (statistics request whose body  *)
+(* has the wrong size for the statistics type), "inner" (an embedded action *)
+(* length of 0 / running past the end of the message).  ty: the OpenFlow    *)
+(* type of the message (what the error must quote).                         *)
+LK(k, cls, ty) == [k |-> k, cls |-> cls, ty |-> ty]
+LenKinds ==
+  { LK("features+", "long", "FEATURES_REQUEST"), LK("getcfg+", "long", "GET_CONFIG_REQUEST"),
+    LK("barrier+", "long", "BARRIER_REQUEST"), LK("setcfg+", "long", "SET_CONFIG"),
+    LK("portmod+", "long", "PORT_MOD"), LK("qcfg+", "long", "QUEUE_GET_CONFIG_REQUEST"),
+    LK("setcfg-", "short", "SET_CONFIG"), LK("portmod-", "short", "PORT_MOD"),
+    LK("qcfg-", "short", "QUEUE_GET_CONFIG_REQUEST"), LK("flowmod-", "short", "FLOW_MOD"),
+    LK("packetout-", "short", "PACKET_OUT"), LK("stats-", "short", "STATS_REQUEST"),
+    LK("vendor-", "short", "VENDOR"),
+    LK("desc+", "body", "STATS_REQUEST"), LK("table+", "body", "STATS_REQUEST"),
+    LK("flow-", "body", "STATS_REQUEST"), LK("flow+", "body", "STATS_REQUEST"),
+    LK("aggr-", "body", "STATS_REQUEST"), LK("port-", "body", "STATS_REQUEST"),
+    LK("port+", "body", "STATS_REQUEST"), LK("queue-", "body", "STATS_REQUEST"),
+    LK("flowmod-act0", "inner", "FLOW_MOD"), LK("flowmod-actover", "inner", "FLOW_MOD"),
+    LK("packetout-act0", "inner", "PACKET_OUT"), LK("packetout-actover", "inner", "PACKET_OUT") }
+LenKindOf(k) == CHOOSE r \in LenKinds : r.k = k
+
+\* the OpenFlow type of the message an action stands for
+TypeOf(a, args) ==
+  CASE a = "Hello" -> "HELLO" [] a = "EchoReq" -> "ECHO_REQUEST" [] a = "EchoReply" -> "ECHO_REPLY"
+    [] a = "FeaturesReq" -> "FEATURES_REQUEST" [] a = "GetConfigReq" -> "GET_CONFIG_REQUEST"
+    [] a = "SetConfig" -> "SET_CONFIG" [] a = "BarrierReq" -> "BARRIER_REQUEST"
+    [] a = "Vendor" -> "VENDOR" [] a = "BadType" -> "UNDEFINED"
+    [] a = "PacketOut" -> "PACKET_OUT" [] a = "FlowMod" -> "FLOW_MOD" [] a = "PortMod" -> "PORT_MOD"
+    [] a = "StatsReq" -> "STATS_REQUEST" [] a = "QueueCfgReq" -> "QUEUE_GET_CONFIG_REQUEST"
+    [] a = "BadLen" -> LenKindOf(args.k).ty
+    [] OTHER -> "-"
+
+\* every error of outs quotes the message of type ty
+Quoting(outs, ty) ==
+  [i \in DOMAIN outs |->
+     [j \in DOMAIN outs[i] |-> IF outs[i][j].t = "ERROR" THEN [outs[i][j] EXCEPT !.data = ty]
+                               ELSE outs[i][j]]]
+
+\* every way of continuing an alternative of H by an alternative of O
+Cross(H, O) == [k \in 1..(Len(H) * Len(O)) |->
+                  H[((k - 1) \div Len(O)) + 1] \o O[((k - 1) % Len(O)) + 1]]
+
+\* May the NEXT controller message share the receive buffer with this one
+\* (more = TRUE: the switch reads nothing yet, the answer is owed)?  A frame on the
+\* dataplane is not part of the controller's byte stream and arrives only
+\* between bursts.
+MoreNow(a) ==
+  IF a = "Rx" THEN {FALSE}
+  ELSE CASE Pipe = "never"  -> {FALSE}
+         [] Pipe = "always" -> {Len(hist) + 1 < D}
+         [] OTHER -> IF nheld + 1 < MaxBurst /\ Len(hist) + 1 # D THEN BOOLEAN ELSE {FALSE}
+
 \* Must be the LAST conjunct of an action (it reads the primed state).
-Log(a, tag, args, outs) ==
-  LET e == [a |-> a, tag |-> tag, args |-> args,
-            exp |-> [outs |-> outs,
+\* exp.outs: the alternative answers to THIS message; exp.see: what the observer
+\* of the channel sees when the step ends - nothing while the message waits in
+\* the receive buffer, and when the buffer is read the answers to all messages
+\* of the burst, in the order the messages were written, nothing else.
+Log(a, tag, args0, outs0) ==
+  \E more \in MoreNow(a) :
+  LET args == args0 @@ [more |-> more]
+      outs == Quoting(outs0, TypeOf(a, args0))
+      owed == Cross(held, outs)
+      e == [a |-> a, tag |-> tag, args |-> args,
+            exp |-> [outs |-> outs, see |-> IF more THEN None ELSE owed,
                      st |-> Digest(ml', fl', fs', fpk', down', prx', ptx')]]
   IN /\ tag \notin Skip
+     /\ (a = "Rx" => nheld = 0 /\ Pipe # "always")
      /\ last' = e
      /\ hist' = Append(hist, e)
+     /\ nheld' = IF more THEN nheld + 1 ELSE 0
+     /\ held' = IF more THEN owed ELSE None
      /\ pendq' = Settle(IF a \in Requests THEN Append(pendq, args.xid) ELSE pendq,
                          IF a \in Requests THEN AnsXids(outs[1]) ELSE <<>>)
 
@@ -181,6 +272,14 @@ Vendor(x) == AllUnch /\ Log("Vendor", "Vendor", [xid |-> x],
 \* a message type the protocol does not define
 BadType(x) == AllUnch /\ Log("BadType", "BadType", [xid |-> x],
                              ErrAlts(x, ET.badreq, <<1>>))         \* BAD_TYPE
+
+\* a message whose length is wrong for its type is refused whole, whatever it asked
+\* for: exactly one BAD_REQUEST/BAD_LEN error (an embedded action length may be
+\* reported as BAD_ACTION/BAD_LEN instead) with its xid, quoting it; no reply, no effect
+BadLen(x, r) ==
+  AllUnch /\ Log("BadLen", "BadLen-" \o r.cls, [xid |-> x, k |-> r.k, cls |-> r.cls],
+                 IF r.cls = "inner" THEN ErrAlts(x, ET.badreq, <<6>>) \o ErrAlts(x, ET.badact, <<1>>)
+                 ELSE ErrAlts(x, ET.badreq, <<6>>))
 
 ----------------------------------------------------------------------------
 (* Dataplane: forwarding of one frame to port q, ingress port inp (0: none) *)
@@ -440,6 +539,11 @@ SPorts   == IF Thin THEN {PNone, Absent} ELSE Ports \cup {PNone, Absent}
 QArgs    == IF Thin THEN {<<PAll, 0>>, <<1, 1>>} ELSE {PAll, 1, Absent} \X {0, 1}
 QPorts   == IF Thin THEN {1, Absent} ELSE {1, Absent, PAll}
 RxArgs   == IF Thin THEN {<<1, "f1">>, <<1, "miss">>} ELSE Ports \X RxKinds
+LenArgs  == IF Thin THEN {r \in LenKinds : r.k \in {"barrier+", "port-", "packetout-actover"}}
+            ELSE IF LenSet = "class"
+            THEN {r \in LenKinds : r.k \in {"barrier+", "setcfg+", "qcfg-", "flowmod-", "port-", "flow+",
+                                            "packetout-actover", "flowmod-act0"}}
+            ELSE LenKinds
 
 Step(x) ==
   \/ Hello(x)
@@ -451,6 +555,7 @@ Step(x) ==
   \/ BarrierReq(x)
   \/ Vendor(x)
   \/ BadType(x)
+  \/ \E r \in LenArgs : BadLen(x, r)
   \/ \E a \in PoActs : PacketOut(x, "data", a)
   \/ \E a \in (IF Thin THEN {2, BadAct} ELSE PoActs) : PacketOut(x, "live", a)
   \/ \E src \in {"stale", "bogus"} : PacketOut(x, src, 2)
@@ -492,6 +597,7 @@ TypeOK == /\ ml \in MissLens /\ fl \in {0, 1}
           /\ prx \in [Ports -> Nat] /\ ptx \in [Ports -> Nat]
           /\ down \in [Ports -> BOOLEAN]
           /\ pool \in [1..NB -> 0..(NP + 1)]
+          /\ nheld \in 0..(MaxBurst - 1) /\ (nheld = 0 => held = None)
           /\ Cardinality(fs) <= MaxEntries
           /\ \A f \in Flows : f \notin fs => fpk[f] = 0
 
@@ -511,7 +617,8 @@ PAnsweredOnce(e) ==
 \* everything else: never a reply; an error only for an invalid message, with
 \* its xid; a valid message produces nothing at all (the packet-in of Rx is
 \* not the output of a controller message)
-InvalidTags == {"Vendor", "BadType", "PacketOut-badbuf", "FlowMod-badbuf", "FlowMod-badcmd",
+InvalidTags == {"Vendor", "BadType", "BadLen-long", "BadLen-short", "BadLen-body", "BadLen-inner",
+                "PacketOut-badbuf", "FlowMod-badbuf", "FlowMod-badcmd",
                 "FlowMod-emerg", "FlowMod-emergto", "FlowMod-emergrem", "FlowMod-addbad-none",
                 "FlowMod-addbad-live", "PortMod-badport", "PortMod-badhw"}
 Rejectable(e) == \/ e.tag \in InvalidTags
@@ -581,6 +688,22 @@ ErrorsRejectWhole ==
   [][(last'.a # "Rx" /\ last'.tag # "FlowMod-badbuf"
       /\ \A alt \in Range(last'.exp.outs) : Len(alt) = 1 /\ alt[1].t = "ERROR")
        => wire' = wire]_vars
+
+\* pipelining: a message that shares the receive buffer with its successor shows nothing
+\* yet; when the buffer is read, what appears is one allowed answer per message of the
+\* burst, in the order the messages were written, and nothing stays owed
+Pipelined ==
+  [][LET e == last' IN
+     /\ nheld' <= MaxBurst - 1
+     /\ (e.args.more => /\ e.exp.see = None /\ nheld' = nheld + 1
+                        /\ \A s \in Range(held') : \E h \in Range(held), o \in Range(e.exp.outs) : s = h \o o)
+     /\ (~e.args.more => /\ nheld' = 0 /\ held' = None
+                         /\ \A s \in Range(e.exp.see) :
+                              \E h \in Range(held), o \in Range(e.exp.outs) : s = h \o o)]_vars
+\* an error quotes the message it answers
+ErrorsQuoteRequest ==
+  [][\A alt \in Range(last'.exp.outs) : \A i \in DOMAIN alt :
+        alt[i].t = "ERROR" => alt[i].data = TypeOf(last'.a, last'.args) /\ alt[i].xid = last'.args.xid]_vars
 
 \* ---- bounds and export
 Bounded == /\ look <= Cap /\ \A p \in Ports : prx[p] <= Cap /\ ptx[p] <= Cap
